@@ -335,12 +335,38 @@ def r6(ctx):
     st = [(s, t, v) for s, t, v in _idx_updates(b) if s.bb in arm]
     unfinished = lambda sg: sg.kind == 'each' and match(core(sg.src), Call('Iterator::enumerate', SELF_FIN)) and \
         len(sg.conds) == 1 and sg.conds[0][1] is False and core(sg.conds[0][0]) == ('field', ITEM, 1)
+    SELF_LEN = ('field', ('arg', 1, ANY), 'lengths')
+
+    def zipped(sgs):
+        """`finished.iter().zip(lengths.iter()).enumerate()` yields (i, (finished[i], lengths[i])): the same sequence written over
+        `finished.iter().enumerate()` with lengths[i] looked up by position (both vectors have one entry per source)"""
+        if sgs is None:
+            return None
+        out = []
+        for sg in sgs:
+            if sg.kind == 'each' and match(core(sg.src), Call('Iterator::enumerate', Call('Iterator::zip', SELF_FIN, SELF_LEN))):
+                sg = sg.copy()
+                fin = core(sg.src)[2][0]
+                while fin[0] == 'call' and fin[1].rsplit('::', 1)[-1] != 'zip':
+                    fin = fin[2][0]
+                lens = core(fin[2][1])
+
+                def rw(n):
+                    if n == ('field', ('field', ITEM, 1), 0):
+                        return ('field', ITEM, 1)
+                    if n == ('field', ('field', ITEM, 1), 1):
+                        return ('index', lens, ('field', ITEM, 0))
+                    return None
+                sg.map(rw, src=False)
+                sg.src = ('call', 'std::iter::Iterator::enumerate', (core(fin[2][0]),))
+            out.append(sg)
+        return out
     good = False
     segs = None
     if len(st) == 1:
         v = peel(st[0][2])
         if v[0] == 'index' and has(v[2], Call('sample')):
-            segs = seq_of(ctx.facts, b, v[1])
+            segs = zipped(seq_of(ctx.facts, b, v[1]))
             good = segs is not None and len(segs) == 1 and unfinished(segs[0]) and core(segs[0].elem) == ('field', ITEM, 0)
     ctx.require(good, b, 'weighted-index', 'self.idx := unfinished_indices[sample], the candidates being the indices with finished == false in ascending order',
                 'the sampled position is mapped through %s' % ([repr(x)[:140] for x in segs] if segs is not None else 'an unrecognised expression'), smp[0].span)
@@ -348,7 +374,7 @@ def r6(ctx):
     good = False
     wsegs = None
     if len(wi) == 1:
-        wsegs = seq_of(ctx.facts, b, sym(b, wi[0].args[0]))
+        wsegs = zipped(seq_of(ctx.facts, b, sym(b, wi[0].args[0])))
         good = wsegs is not None and len(wsegs) == 1 and unfinished(wsegs[0]) and \
             match(core(wsegs[0].elem), ('index', ('field', ('arg', 1, ANY), 'lengths'), ('field', ITEM, 0)))
     ctx.require(good, b, 'weighted-weights', 'weights = lengths[i] of the unfinished sources, in the order of the candidates',
@@ -441,3 +467,33 @@ def r7(ctx):
         elif sites:
             ctx.ok(sites[0][0], '%s: %d x `%s` -- %s' % (key[0], len(sites), key[1], inv[1]), sites[0][1].span)
     ctx.ok(None, 'panic inventory of the multi-source generator: %d bodies scanned' % n)
+
+
+@rule('C07', 'R-C07-8', 'T10 PROVENANCE (source indices are positions in the list the caller passed)',
+      'MultiTrainDataGenerator::new stores the generators exactly as given (no filtering, sorting or de-duplication) and derives lengths / finished '
+      'flags from that same list, one entry per source: the index yielded with an item is a position in the caller\'s list. Dropping empty sources '
+      'up front shifts the index of every later source')
+def r8(ctx):
+    from analysis.seq import seq_of, ITEM
+    from analysis.sym import agg_field
+    n = ctx.body(G + '::new')
+    oks = [v for v, bb in ret_values(n) if v[0] == 'agg' and v[2].endswith('Result::Ok')]
+    if len(oks) != 1:
+        raise AnchorMissing('Ok(MultiTrainDataGenerator {..}) in new()')
+    st = oks[0][3][0]
+    gens = agg_field(ctx.facts, st, 'generators')
+    okg = gens is not None and match(core(gens), ('arg', 1, ANY))
+    if not okg and gens is not None:
+        segs = seq_of(ctx.facts, n, gens)
+        okg = segs is not None and len(segs) == 1 and segs[0].kind == 'each' and not segs[0].conds and match(core(segs[0].src), ('arg', 1, ANY)) and core(segs[0].elem) == ITEM
+    ctx.require(okg, n, 'generators-as-given', 'self.generators is the list passed by the caller, unchanged',
+                'self.generators is `%s`: sources are removed or reordered before indices are assigned, so the index yielded with an item no longer identifies the '
+                'caller\'s source' % (show_in(n, gens)[:120] if gens is not None else '?'))
+    for fld, what in (('lengths', 'g.len()'), ('finished', 'false')):
+        v = agg_field(ctx.facts, st, fld)
+        segs = seq_of(ctx.facts, n, v) if v is not None else None
+        ok = segs is not None and len(segs) == 1 and not segs[0].conds and (
+            (segs[0].kind == 'each' and has(core(segs[0].src), ('arg', 1, ANY))) or
+            (segs[0].kind == 'repeat' and has(core(segs[0].count), ('arg', 1, ANY))))
+        ctx.require(ok, n, 'per-source|' + fld, 'self.%s has one entry (%s) per source of the list' % (fld, what),
+                    'self.%s is built as %s' % (fld, [repr(x)[:100] for x in segs or ()]))
